@@ -117,6 +117,12 @@ pub fn run_ileave2(body: &[Sexp]) -> String {
     p => panic!("bad ileave2 pipe {p}"),
   };
   let world = Arc::new(World { a, b, outer, hots, ender: Arc::new(Mutex::new(Some(ender))) });
+  // an optional sequential prologue (setup OP...) runs before the threads start
+  if let Some(setup) = body.get(3) {
+    for op in setup.args() {
+      run_op(op, &world);
+    }
+  }
   let scripts: Vec<Vec<Sexp>> = body[1].args().iter().map(|s| s.list().to_vec()).collect();
   let sched: Vec<usize> = body[2].args().iter().map(|s| s.usize()).collect();
   let w2 = world.clone();
